@@ -18,7 +18,7 @@ type Sink struct {
 
 // Construct is the stable key of the sink.
 func (s Sink) Construct() string {
-	return fmt.Sprintf("%s→%s.%s#%d", Short(FuncKey(s.Fn)), s.Iface, s.Verb, s.Ord)
+	return fmt.Sprintf("%s→%s.%s#%d", Short(FuncKey(InlineRoot(s.Fn))), s.Iface, s.Verb, s.Ord)
 }
 
 var dynVerbs = map[string]bool{"Create": true, "Update": true, "UpdateStatus": true, "Delete": true,
@@ -67,7 +67,7 @@ func Sinks(fns []*ssa.Function) []Sink {
 	for _, fn := range sorted {
 		for _, cs := range Calls(fn, func(k string) bool { _, _, ok := ClassifySink(k); return ok }) {
 			iface, verb, _ := ClassifySink(cs.Key)
-			k := FuncKey(fn) + "|" + iface + "|" + verb
+			k := FuncKey(InlineRoot(fn)) + "|" + iface + "|" + verb
 			out = append(out, Sink{CallSite: cs, Iface: iface, Verb: verb, Ord: ord[k]})
 			ord[k]++
 		}
